@@ -56,7 +56,7 @@ Sub(s) ==     \* the sub-batch this very call served from store s
 StoreC09(s) ==
     IF S(s).mode = "static"
     THEN IF NewOrder(s) # st[s].order THEN "StoreChangedWithoutReshuffle" ELSE "ok"
-    ELSE DrawVerdict("ge", l = 1, Ids(s), st[s].order, ActOf(s), st[s].cur, S(s).b, S(s).neff,
+    ELSE DrawVerdict("ge", l = 1 /\ T.fresh, Ids(s), st[s].order, ActOf(s), st[s].cur, S(s).b, S(s).neff,
                      st[s].served, NewOrder(s), NewCur(s), Sub(s))
 StoreC08(s) ==
     IF ~IsPermOf(NewOrder(s), Ids(s)) THEN "StoreNotPermutation"
@@ -119,7 +119,13 @@ EventVerdict ==
 (* ------------------------------------------------------------------ the monitor *)
 Init == /\ tid \in 1..Len(Traces) /\ l = 1
         /\ st = [s \in 1..Len(Traces[tid].stores) |->
-                   [order |-> Traces[tid].stores[s].init, cur |-> Traces[tid].stores[s].cur0, served |-> {}]]
+                   [order |-> Traces[tid].stores[s].init, cur |-> Traces[tid].stores[s].cur0,
+                    \* a generator that already served batches: the cursor is the start of the last served window,
+                    \* everything before its end has been served in the running epoch
+                    served |-> IF Traces[tid].fresh THEN {}
+                               ELSE {Traces[tid].stores[s].init[k] :
+                                       k \in {j \in 1..Len(Traces[tid].stores[s].init) :
+                                                j <= Traces[tid].stores[s].cur0 + Traces[tid].stores[s].b}}]]
         /\ viol = "ok"
 Step == /\ viol = "ok"
         /\ IF l = 1 /\ InitVerdict # "ok"
